@@ -23,3 +23,11 @@ Proof.
   - apply comp_dir_sound. - apply comp_dir_complete.
 Qed.
 Print Assumptions C16_all_undirected. Print Assumptions C16_max_undirected.
+
+(** path a - b - c (undirected): {a, b} is a maximum clique, {a} is a clique but not maximum *)
+Example C16_instance :
+  let vs := 0 :: 1 :: 2 :: nil in let E := (0, 1) :: (1, 2) :: nil in let cp := fun v => 10 + v in
+  fsem (form_max vs (comp_undir vs E) cp) (fun v => match v with 0 | 1 => true | _ => false end) = true /\
+  fsem (form_max vs (comp_undir vs E) cp) (fun v => match v with 0 => true | _ => false end) = false /\
+  fsem (form_all (comp_undir vs E)) (fun v => match v with 0 => true | _ => false end) = true.
+Proof. repeat split; vm_compute; reflexivity. Qed.
